@@ -331,6 +331,41 @@ func execConn(h string) string {
 	return "alive mem=ok"
 }
 
+// execZero sends frames that carry no command followed by an inline PING on a fresh connection.
+// handleConn has to skip the former and answer the latter; a dead server process is `crash`.
+func execZero(h string) string {
+	data := append(hlib.UnHex(h), []byte("PING\r\n")...)
+	s := ensureServer()
+	c, err := net.DialTimeout("tcp", s.addr, 2*time.Second)
+	if err != nil {
+		return "dial-failed"
+	}
+	defer c.Close()
+	c.Write(data)
+	if tc, ok := c.(*net.TCPConn); ok {
+		tc.CloseWrite()
+	}
+	c.SetReadDeadline(time.Now().Add(10 * time.Second))
+	reply, _ := io.ReadAll(io.LimitReader(c, 4096))
+	if string(reply) == "+PONG\r\n" {
+		return "pong"
+	}
+	select {
+	case <-s.exited:
+		return "crash"
+	case <-time.After(500 * time.Millisecond):
+	}
+	if _, ok := s.totalAlloc(); !ok {
+		select {
+		case <-s.exited:
+			return "crash"
+		case <-time.After(10 * time.Second):
+			return "hung"
+		}
+	}
+	return "reply:" + hlib.Hex(reply)
+}
+
 // ---------------------------------------------------------------- C29: commands over TCP
 
 type client struct {
@@ -513,7 +548,7 @@ func (e *engine) Rule() string {
 	if e.prop == "C29" {
 		return "C29: command sequences (8–40 commands) over 3 keys plus the empty key on one connection to the real server; values: integers at the int64 limits, blank/odd numerals, arbitrary bytes; SET with NX/XX and EX/PX/EXAT/PXAT far in the past or future; non-trivial = a key is accessed again after it was given an expiry or written conditionally, or an INCR-family command answers an integer/overflow error"
 	}
-	return "C31: byte streams for parseRESP: well-formed arrays and inline commands, truncated/mutated frames, declared array and bulk lengths from -2^63 to 10^30 (small, 32 MiB–512 MiB, ≥ 32 GiB, > maxAlloc), random protocol bytes; non-trivial = the stream is not a plain well-formed one (the parse ends with an error other than a clean EOF, or is unsafe)"
+	return "C31: byte streams for parseRESP: well-formed arrays and inline commands, truncated/mutated frames, declared array and bulk lengths from -2^63 to 10^30 (small, 32 MiB–512 MiB, ≥ 32 GiB, > maxAlloc), random protocol bytes; every other case also sends zero-argument frames (`*0`, `*-1`, blank and white-space-only lines) plus PING to the real server over TCP (must answer +PONG); non-trivial = the stream is not a plain well-formed one (the parse ends with an error other than a clean EOF, or is unsafe)"
 }
 
 func (e *engine) Exec(ops []string) []string {
@@ -537,6 +572,9 @@ func (e *engine) Exec(ops []string) []string {
 			out[i] = execConn(f[1])
 			stats["ms_conn"] += int(time.Since(t0).Milliseconds())
 			stats["n_conn"]++
+		case len(f) == 2 && f[0] == "zero":
+			out[i] = execZero(f[1])
+			stats["n_zero"]++
 		case len(f) >= 2 && f[0] == "cmd":
 			if cl == nil {
 				s := ensureServer()
@@ -586,8 +624,11 @@ func (e *engine) Nontrivial(ops, impl, model, spec []string) bool {
 		}
 		return false
 	}
-	for i := range ops {
-		if !strings.HasPrefix(impl[i], "safe end=err:eof") {
+	for i, op := range ops {
+		if strings.HasPrefix(op, "parse ") && !strings.HasPrefix(impl[i], "safe end=err:eof") {
+			return true
+		}
+		if strings.HasPrefix(op, "conn ") && impl[i] != "alive mem=ok" {
 			return true
 		}
 	}
